@@ -226,3 +226,54 @@ def run_witnesses():
     if not m:
         raise BrokenCheck("witness crate did not run: " + out[-1500:])
     return int(m.group(1)), int(m.group(2)), out[-1500:]
+
+
+def bool_return_leaves(F, g, depth=0, follow=None):
+    """For a function/closure returning bool: the calls its return value is (possibly negated) a direct result of.
+    Returns [(sign, term, fn)] with sign +1/-1, or None when the value is computed in a way this does not follow
+    (short-circuit && / ||, comparisons, constants).  `follow(path)` says whether to descend into a workspace callee that
+    itself returns bool (composition of helper predicates)."""
+    out = []
+    du = mir.DefUse(g)
+    seen = set()
+
+    def walk(local, sign, d):
+        if (local, sign) in seen or d > 30:
+            return True
+        seen.add((local, sign))
+        defs = du.defs.get(local, [])
+        if not defs:
+            return False
+        okk = True
+        for df in defs:
+            if df[0] == "call":
+                t = df[3]
+                r = t.get("resolved") or t.get("callee") or ""
+                if follow is not None and depth < 2 and r in F.fns and follow(r):
+                    sub = bool_return_leaves(F, F.fns[r], depth + 1, follow)
+                    if sub is None:
+                        okk = False
+                    else:
+                        out.extend((sign * s2, t2, f2) for s2, t2, f2 in sub)
+                else:
+                    out.append((sign, t, g))
+            else:
+                rv = df[3]["rv"]
+                if rv["k"] == "use":
+                    pl = mir.op_place(rv["op"])
+                    if pl is None or pl["p"]:
+                        okk = False
+                    else:
+                        okk = walk(pl["l"], sign, d + 1) and okk
+                elif rv["k"] == "unop" and rv.get("op") == "Not":
+                    pl = mir.op_place(rv["a"])
+                    if pl is None or pl["p"]:
+                        okk = False
+                    else:
+                        okk = walk(pl["l"], -sign, d + 1) and okk
+                else:
+                    okk = False
+        return okk
+
+    good = walk(0, 1, 0)
+    return out if good else None
